@@ -17,7 +17,10 @@ ID = "C10"
 LEVEL = "exploration"
 RULE = ("Hypothesis cases: 1-5 attributes drawn from 14 default kinds (constant, Any list/dict copy, List/Dict/Set, "
         "Instance(C, ()), factory+args, _name_default method, Tuple(List,Int), Tuple(Str,Dict,Int), Union(List,Int), "
-        "Dict(Str,List), List(List)), optional subclass overrides, history of <=20 ops over several instances; non-trivial "
+        "Dict(Str,List), List(List)), optional subclass overrides, history of <=20 ops over several instances (reads, default "
+        "mutation, assignment, trait / item handlers identified by the instance they were registered on, add_trait of scalar "
+        "and container traits); after every step the raw class tables and the definitions seen by every other instance are "
+        "compared; non-trivial "
         "= a default container mutated on one instance before the same attribute is first read on another, an instance "
         "trait added, or a handler registered on one instance; distinct by digest")
 ASSUMPTIONS = ["instances are identified by a serial number stored on them, never by id()",
